@@ -129,12 +129,21 @@ def generate(r):
                 # leave one or two try blocks by break / continue / return, then meet a fault point: the handlers of
                 # the blocks that were left must be gone
                 how = r.choice(["break", "continue", "ret"] if in_try else ["break", "continue"])
-                inner = [["fp"]] if r.random() < 0.5 else []
+                inner = [r.choice([["fp"], ["fpi"]])] if r.random() < 0.6 else []
                 inner.append(["ret", const()] if how == "ret" else [how])
-                wrapped = ["try", inner, list(names), r.choice(FILTERS), [], []]
+                # locals of the loop body declared before the try are alive in the catch clause (its record lists them,
+                # which makes it the deepest expression of the function) but are gone where the try block's exit lands
+                scope = list(names)
+                declared = []
                 if r.random() < 0.5:
-                    wrapped = ["try", [wrapped], list(names), r.choice(FILTERS), [], []]
-                stmts.append(["loop", r.randint(1, 2), [wrapped]])
+                    for _ in range(r.randint(2, 3)):
+                        name = "x%d_%d" % (len(scope), fi)
+                        scope.append(name)
+                        declared.append(["let", name, const()])
+                wrapped = ["try", inner, list(scope), r.choice(FILTERS), [], []]
+                if r.random() < 0.5:
+                    wrapped = ["try", [wrapped], list(scope), r.choice(FILTERS), [], []]
+                stmts.append(["loop", r.randint(1, 2), declared + [wrapped]])
                 stmts.append(["fp"])
                 if how == "ret":
                     break
